@@ -74,6 +74,9 @@ func genRules(t *rapid.T, tier string) (*World, any) {
 			feat["comment-inside-chain"] = true
 		}
 		opts.Tabs = chance(t, 20, "tabs")
+		for i := 0; i < 14; i++ {
+			opts.IDNotFirst = append(opts.IDNotFirst, drawInt(t, 0, 1, "idnotfirst"))
+		}
 		feat["line-variety"] = true
 	}
 	rf := &RuleFile{Path: p.RulesPath}
@@ -135,7 +138,8 @@ func genRules(t *rapid.T, tier string) (*World, any) {
 	// other rules files that must stay untouched
 	w.Put("crs/rules/REQUEST-941-APPLICATION-ATTACK-XSS.conf", "SecRule ARGS \"@rx xss\" \\\n    \"id:941100,\\\n    phase:2\"\n")
 	w.Put("crs/rules/RESPONSE-950-DATA-LEAKAGES.conf", "# nothing\n")
-	w.Put("crs/regex-assembly/include/inc1.ra", "abs\nbes\n")
+	w.Put("crs/regex-assembly/include/inc1.ra", "abs\nbes\ncx\n")
+	w.Put("crs/regex-assembly/exclude/exc1.ra", "bes\n")
 	// assembly files for 1-3 targets
 	if len(cands) == 0 {
 		rf.Rules[0].Ops[0] = "@rx"
@@ -159,7 +163,7 @@ func genRules(t *rapid.T, tier string) (*World, any) {
 		if c.link > 0 {
 			arg = fmt.Sprintf("%s-chain%d", id, c.link)
 		}
-		prog := drawProgram(t, ProgOpts{Spicy: true, Flags: true, PrefixSufx: chance(t, 30, "ps"), Blocks: chance(t, 30, "blk"), Includes: []string{"inc1"}, MaxLines: 6}, "prog")
+		prog := drawProgram(t, ProgOpts{Spicy: true, Flags: true, PrefixSufx: chance(t, 30, "ps"), Blocks: chance(t, 30, "blk"), Includes: []string{"inc1"}, Excludes: []string{"exc1"}, Pairs: true, MaxLines: 6}, "prog")
 		content := joinLines(prog.Lines)
 		if chance(t, 5, "bom") {
 			content = "\ufeff" + content // a byte order mark means the same to generate, update and compare
